@@ -12,15 +12,23 @@ THEOREMS = [P + t for t in ["C13_provenance", "C13_provenance_multi", "C13_recov
                             # tie of kind (1): Gen/IsoTpStep.lean is regenerated from the source on every run (regen_isotp_step)
                             "gen_stepE_eq", "gen_step_eq", "gen_feedE_eq",
                             "C13_never_raises_gen", "C13_never_raises_slot_gen", "C13_provenance_gen", "C13_recovery_gen"]]
-RULE = ("well-formed streams (<= 12 frames) with every single fault (drop, duplicate, swap, truncate to 0-2 bytes, PCI nibble "
-        "corrupted to each of 16 values, injected stray CF/FC/empty frame) at every position, sampled double faults, random "
-        "frame soups; each followed by a well-formed transfer (recovery; every 6th one with >= 16 or >= 32 consecutive frames or CAN-FD frames, so that the sequence number wraps); distinct = distinct frame list; non-trivial = contains a fault or >= 2 frames")
+RULE = ("well-formed streams (<= 12 frames; one ID, and the request/flow-control/response conversation on the two IDs snoop listens to) with every single "
+        "fault (drop, duplicate, swap, truncate to every length, frame-type nibble and low nibble of the PCI byte corrupted to each of 16 values, second PCI byte "
+        "to boundary values, injected stray CF (6 sequence numbers)/FC/SF/FF/empty frame on every ID) at every position; announced length of every first frame "
+        "set to each boundary value (0, 1, dl-3..dl, n-1, n+1, one frame more, 255, 256, 4095) x every single fault; double faults exhaustive for the shortest "
+        "segmented stream, sampled otherwise; random frame soups biased to boundary lengths/sequence numbers; each followed by a well-formed transfer (recovery; "
+        "every 6th one with >= 16 or >= 32 consecutive frames or CAN-FD frames, so that the sequence number wraps). Every stream is processed by the recording "
+        "subclass of IsoTpStateMachine (also compared with the model) and by the decoders `odxtools snoop` builds (cli/snoop.py:init_verbose_state_machine over "
+        "IsoTpStateMachine and over IsoTpActiveDecoder), every 3rd one also by the bare IsoTpStateMachine / IsoTpActiveDecoder; every 8th one also as a candump "
+        "text log (3 formats) and every 8th one as python-can messages through read_telegrams; distinct = distinct frame list; non-trivial = contains a fault or >= 2 frames")
 TRUSTED = ["model lean/OdxVerif/Model/IsoTp.lean is hand-written; tied to odxtools/isotp_state_machine.py (a) by the theorem gen_stepE_eq against the Lean "
            "function regenerated on every run from decode_rx_frame/__init__ by harness/extract/py2lean.py, (b) by event-trace comparison",
            "translator harness/extract/py2lean.py and the primitives lean/OdxVerif/Model/PyRt.lean (see C12)",
-           "the provenance reference in harness/isotp_lib.py (reference_explain) is an independent 30-line reassembler"]
+           "the provenance reference in harness/isotp_lib.py (reference_explain) is an independent 30-line reassembler",
+           "the fake python-can bus and the stub bus in harness/isotp_lib.py (always readable; deliver a fixed frame list; record what is sent)"]
 ASSUMPTIONS = ["'never raises': theorem C13_never_raises_gen about the source as rendered by the translator (IndexError, TypeError on None, bitstruct.Error are "
-               "error outcomes of the rendering); exceptions outside the rendered subset semantics (e.g. from user callbacks) are covered by the correspondence runs only"]
+               "error outcomes of the rendering); exceptions outside the rendered subset semantics (the callbacks of IsoTpActiveDecoder and of the verbose "
+               "decoders of cli/snoop.py, read_telegrams) are covered by the direct oracle on those decoders only (not by a theorem)"]
 
 
 def regen_isotp_step(ctx):
@@ -31,78 +39,219 @@ def regen_isotp_step(ctx):
 GENERATORS = [regen_isotp_step]
 
 
-def faults(frames, cid):
-    """all single faults of a frame list (list of (id, bytes))"""
+def _b1_values(cur):
+    """boundary values for the second PCI byte (FF_DL low byte / CAN-FD SF_DL / FC block size)"""
+    return sorted({0x00, 0x01, 0x06, 0x07, 0x08, 0x7F, 0xFF, (cur - 1) % 256, (cur + 1) % 256} - {cur})
+
+
+def faults(frames, ids):
+    """all single faults of a frame list (list of (id, bytes)); `ids` = the IDs stray frames are injected on"""
+    if isinstance(ids, int):
+        ids = [ids]
     n = len(frames)
     for k in range(n):
         yield ("drop", k), frames[:k] + frames[k + 1:]
         yield ("dup", k), frames[:k + 1] + frames[k:]
         if k + 1 < n:
             yield ("swap", k), frames[:k] + [frames[k + 1], frames[k]] + frames[k + 2:]
-        for t in (0, 1, 2):
-            yield ("trunc%d" % t, k), frames[:k] + [(frames[k][0], frames[k][1][:t])] + frames[k + 1:]
-        d = frames[k][1]
+        c, d = frames[k]
+        # truncation: every length for classic frames, boundary lengths for CAN-FD frames
+        for t in (range(len(d)) if len(d) <= 8 else sorted({0, 1, 2, 3, 7, 8, len(d) // 2, len(d) - 1})):
+            yield ("trunc%d" % min(t, 3), k), frames[:k] + [(c, d[:t])] + frames[k + 1:]
         if d:
+            # PCI byte: frame type nibble to each other value; low nibble (SF_DL / FF_DL high bits / sequence number / FC flag) to each other value
             for nib in range(16):
                 if nib != d[0] >> 4:
-                    yield ("pci%x" % nib, k), frames[:k] + [(frames[k][0], bytes([(nib << 4) | (d[0] & 15)]) + d[1:])] + frames[k + 1:]
+                    yield ("pci%x" % nib, k), frames[:k] + [(c, bytes([(nib << 4) | (d[0] & 15)]) + d[1:])] + frames[k + 1:]
+            for nib in range(16):
+                if nib != d[0] & 15:
+                    yield ("lo", k), frames[:k] + [(c, bytes([(d[0] & 0xF0) | nib]) + d[1:])] + frames[k + 1:]
+        if len(d) >= 2:
+            # second PCI byte (low byte of the announced length of a first frame, CAN-FD single frame length, FC block size)
+            for v in _b1_values(d[1]):
+                yield ("b1", k), frames[:k] + [(c, d[:1] + bytes([v]) + d[2:])] + frames[k + 1:]
     for k in range(n + 1):
-        yield ("stray-cf", k), frames[:k] + [(cid, bytes([0x21 + (k % 15), 0xDE, 0xAD, 0xBE, 0xEF]))] + frames[k:]
-        yield ("stray-fc", k), frames[:k] + [(cid, b"\x30\x00\x00")] + frames[k:]
-        yield ("empty", k), frames[:k] + [(cid, b"")] + frames[k:]
+        for c in ids:
+            for sn in sorted({0, 1, 2, 3, 15, 1 + (k % 15)}):
+                yield ("stray-cf", k), frames[:k] + [(c, bytes([0x20 + sn, 0xDE, 0xAD, 0xBE, 0xEF]))] + frames[k:]
+            yield ("stray-fc", k), frames[:k] + [(c, b"\x30\x00\x00")] + frames[k:]
+            yield ("stray-fc", k), frames[:k] + [(c, b"\x3F\x00\x00")] + frames[k:]
+            yield ("stray-sf", k), frames[:k] + [(c, b"\x02\xCA\xFE")] + frames[k:]
+            yield ("stray-ff", k), frames[:k] + [(c, bytes.fromhex("100bf0f1f2f3f4f5"))] + frames[k:]
+            yield ("empty", k), frames[:k] + [(c, b"")] + frames[k:]
 
 
-def oracle(ctx, ids, frames, fam, tag, pending, recovery=None):
-    """direct oracle on the implementation"""
-    line, teles, exc, per_frame = L.run_impl(ids, frames)
+def ffdl_values(n, dl):
+    """boundary values of the 12 bit announced length of a first frame that really carries n bytes in frames of dl bytes:
+    zero (ISO 15765-2:2016 escape / corrupted), lengths a first frame already contains (<= dl-2), off-by-one and one
+    frame more than the data, the 8 bit carry and the maximum"""
+    return sorted({0, 1, dl - 3, dl - 2, dl - 1, dl, n - 1, n + 1, n + dl - 1, 255, 256, 4095} - {n})
+
+
+def set_ffdl(frames, k, v):
+    c, d = frames[k]
+    return frames[:k] + [(c, bytes([0x10 | (v >> 8), v & 0xFF]) + d[2:])] + frames[k + 1:]
+
+
+def _provenance(ctx, ids, frames, per_frame, allowed, n_check, tag, w, dec):
+    """clause 2 of the property on the telegram lists reported per frame (first n_check frames)"""
+    for cid in ids:
+        idx = -1
+        for k, (c, f) in enumerate(frames[:n_check]):
+            if c != cid:
+                continue
+            idx += 1
+            if k >= len(per_frame):
+                break
+            got = [p for (r, p) in per_frame[k]]
+            if any(p not in allowed[cid][idx] for p in got) or len(got) > 1 or any(r != cid for (r, p) in per_frame[k]):
+                ctx.violate("provenance", [tag, "fabricated-or-repeated"] + ([dec] if dec else []), "telegram",
+                            {**w, "frame_index": k, "reported": [p.hex() for p in got], "allowed": [p.hex() for p in allowed[cid][idx]]},
+                            f"telegram reported at frame {k} is neither that single frame's payload nor the pending first frame's transfer ({tag}"
+                            + (f", decoder {dec}" if dec else "") + ")")
+                break
+    # frames on IDs the decoder does not listen to must not report anything
+    for k, (c, f) in enumerate(frames[:min(n_check, len(per_frame))]):
+        if c not in ids and per_frame[k]:
+            ctx.violate("provenance", [tag, "foreign-id"] + ([dec] if dec else []), "telegram", {**w, "frame_index": k},
+                        f"a frame on an ID that is not listened to reported a telegram ({tag})")
+            break
+
+
+def oracle(ctx, ids, frames, fam, tag, pending, recovery=None, variants=(), act=None, serial=0):
+    """direct oracle on the implementation: the recording subclass of IsoTpStateMachine (whose event trace also goes to the
+    model) and every decoder variant named in `variants` (harness/isotp_lib.py VARIANTS)"""
+    frames = list(frames)
+    n0 = len(frames)
+    rec_frames = [(recovery[0], f) for f in recovery[2]] if recovery is not None else []
+    allf = frames + rec_frames
     ctx.case((tuple(ids), tuple(frames)), nontrivial=len(frames) >= 2)
     ctx.histo("fault", tag)
     w = {"ids": list(ids), "frames": [[c, f.hex()] for c, f in frames]}
-    if exc:
-        ctx.violate("never-raises", [tag], exc, w, f"decode_rx_frame raised {exc} on a {tag} stream")
-    else:
-        for cid in ids:
-            own = [f for (c, f) in frames if c == cid]
-            allowed = L.reference_explain(own)
-            idx = -1
-            for k, (c, f) in enumerate(frames):
-                if c != cid:
-                    continue
-                idx += 1
-                got = [p for (r, p) in per_frame[k]]
-                if any(p not in allowed[idx] for p in got) or len(got) > 1:
-                    ctx.violate("provenance", [tag, "fabricated-or-repeated"], "telegram",
-                                {**w, "frame_index": k, "reported": [p.hex() for p in got], "allowed": [p.hex() for p in allowed[idx]]},
-                                f"telegram reported at frame {k} is neither that single frame's payload nor the pending first frame's transfer ({tag})")
-                    break
+    if recovery is not None:
+        w = {**w, "then": [f.hex() for f in recovery[2]], "then_id": recovery[0], "expected": recovery[1].hex()}
+    allowed = {cid: L.reference_explain([f for (c, f) in allf if c == cid]) for cid in ids}
+
+    def judge(per_frame, exc, dec):
+        wd = {**w, "decoder": dec} if dec else w
+        fe = [dec] if dec else []
+        if exc and len(per_frame) <= n0:
+            ctx.violate("never-raises", [tag] + fe, exc, wd, f"decode_rx_frame raised {exc} on a {tag} stream" + (f" (decoder {dec})" if dec else ""))
+            return
+        _provenance(ctx, ids, allf, per_frame, allowed, n0, tag, wd, dec)
         if recovery is not None:
-            cid, p, fs = recovery
-            # state after the faulty prefix must not disturb the next transfer on that ID
-            _, teles2, exc2, _ = L.run_impl(ids, frames + [(cid, f) for f in fs])
-            new = [q for (r, q) in teles2[len(teles):] if r == cid]
-            if exc2 or new != [p]:
-                ctx.violate("recovery", [tag], exc2 or "mismatch", {**w, "then": [f.hex() for f in fs], "expected": p.hex(), "got": [q.hex() for q in new]},
-                            f"well-formed transfer after a {tag} stream not reassembled")
-    pending.append((fam, ids, frames, line))
+            cid, p, _ = recovery
+            new = [q for got in per_frame[n0:] for (r, q) in got if r == cid]
+            if exc or new != [p]:
+                ctx.violate("recovery", [tag] + fe, exc or "mismatch", {**wd, "got": [q.hex() for q in new]},
+                            f"well-formed transfer after a {tag} stream not reassembled" + (f" (decoder {dec})" if dec else ""))
+
+    # the state after the faulty prefix must not disturb the next transfer on that ID: one run over prefix + transfer
+    line, teles, exc, per_frame = L.run_impl(ids, allf)
+    judge(per_frame, exc, None)
+    pending.append((fam, ids, allf, line))
+    for v in variants:
+        pad = L.variant_pad(v, serial)
+        pf, ex, sends = L.run_variant(v, ids, allf, pad)
+        ctx.count("decoder_variant_runs")
+        judge(pf, ex, "decoder:" + v)
+        if act is not None and v in L.ACTIVE_VARIANTS:
+            act.append((v, list(ids), pad, allf, sends))
+
+
+def text_log_oracle(ctx, ids, frames, tag):
+    """the same frames as a candump text log through read_telegrams of the decoder `odxtools snoop` builds for stdin:
+    never raises and yields exactly the telegrams decode_rx_frame yields for these frames (lines with an empty data field are
+    not frames of the text formats; they are left out)"""
+    frames = [(c, f) for (c, f) in frames if len(f) > 0]
+    pf, ex, _ = L.run_variant("plain", ids, frames)
+    want = [t for got in pf for t in got]
+    for fmt in ("normal", "log", "fdlog"):
+        teles, exc = L.run_text_log_variant("snoop-passive", ids, frames, fmt)
+        ctx.count("text_log_runs")
+        if exc or (ex is None and teles != want):
+            ctx.violate("never-raises" if exc else "provenance", [tag, "text-log", fmt], exc or "telegrams-differ",
+                        {"ids": list(ids), "frames": [[c, f.hex()] for c, f in frames], "format": fmt, "decoder": "text:snoop-passive",
+                         "got": [[r, p.hex()] for r, p in teles], "expected": [[r, p.hex()] for r, p in want]},
+                        f"read_telegrams on a {fmt} text log of a {tag} stream " + (f"raised {exc}" if exc else "reports other telegrams than decode_rx_frame"))
+
+
+def bus_oracle(ctx, ids, frames, tag, name):
+    """the same frames as python-can messages through read_telegrams(bus) of the decoder `odxtools snoop` builds for a live
+    channel: never raises and yields exactly the telegrams decode_rx_frame yields for these frames"""
+    pf, ex, _ = L.run_variant("plain", ids, frames)
+    want = [t for got in pf for t in got]
+    teles, exc, sent = L.run_bus_variant(name, ids, frames)
+    ctx.count("bus_runs")
+    if exc or (ex is None and teles != want):
+        ctx.violate("never-raises" if exc else "provenance", [tag, "bus", "decoder:" + name], exc or "telegrams-differ",
+                    {"ids": list(ids), "frames": [[c, f.hex()] for c, f in frames], "decoder": "bus:" + name,
+                     "got": [[r, p.hex()] for r, p in teles], "expected": [[r, p.hex()] for r, p in want]},
+                    f"read_telegrams on a bus delivering a {tag} stream (decoder {name}) " + (f"raised {exc}" if exc else "reports other telegrams than decode_rx_frame"))
+
+
+def flush_active(ctx, act):
+    """correspondence of the active decoders on faulty streams: the flow-control frames sent = those of the model"""
+    drv = ctx.driver("drv_isotp")
+    if not act or not drv.available():
+        return
+    reps = drv.query([L.active_model_line(ids, L.tx_ids_for(ids), pad[0], pad[1], fr) for (v, ids, pad, fr, sends) in act])
+    from props.c12 import _split_top
+    for (v, ids, pad, fr, sends), rep in zip(act, reps):
+        ctx.traces += 1
+        msends = " ".join(x for x in _split_top(rep) if x.startswith("(send"))
+        if " ".join(sends) != msends:
+            ctx.disagree("active-faulty:" + v, {"rx": ids, "tx": L.tx_ids_for(ids), "pad": list(pad), "frames": [[c, f.hex()] for c, f in fr]},
+                         msends[:1000], " ".join(sends)[:1000])
 
 
 def run(ctx):
-    from props.c12 import flush_model, gen_stream
+    from props.c12 import flush_model
     big = ctx.tier == "thorough"
     rng = ctx.rng
-    pending = []
+    pending, act = [], []
     cid = 0x7E0
+    V = L.VARIANTS
+    V_SNOOP = ["snoop-passive", "snoop-active"]
+    serial = [0]
+    seen = set()
+
+    def go(ids, frames, fam, tag, rec, variants=V, dedup=False):
+        if dedup:
+            key = (tuple(ids), tuple(frames))
+            if key in seen:
+                return False
+            seen.add(key)
+        serial[0] += 1
+        if variants is V:
+            # the decoders snoop builds on every stream; their bare base classes (which differ from the recording subclass / the verbose
+            # active decoder only by callbacks, ID arguments and padding) on every 3rd stream each
+            variants = V_SNOOP + (["plain"] if serial[0] % 3 == 0 else ["active"] if serial[0] % 3 == 1 else [])
+        oracle(ctx, ids, frames, fam, tag, pending, rec, variants, act, serial[0])
+        # a share of the streams also through the other entry points of snoop: as a text log (stdin) and as messages of a live bus
+        m = serial[0] % (4 if big else 8)
+        if m == 0:
+            text_log_oracle(ctx, ids, frames, tag)
+        elif m == 2:
+            bus_oracle(ctx, ids, frames, tag, "snoop-passive" if serial[0] % 16 < 8 else "snoop-active")
+        return True
+
     # corpus: the defects of the pinned commit
     for frames in ([(cid, bytes.fromhex("21778899aa"))], [(cid, b"")], [(cid, b"\x10")],
                    [(cid, bytes.fromhex("100a112233445566")), (cid, bytes.fromhex("21778899aaAAAAAA")), (cid, bytes.fromhex("22deadbeef"))]):
-        oracle(ctx, [cid], frames, "corpus", "corpus", pending, (cid, b"\x01\x02\x03", L.segment(b"\x01\x02\x03", 8, b"")))
+        go([cid], frames, "corpus", "corpus", (cid, b"\x01\x02\x03", L.segment(b"\x01\x02\x03", 8, b"")))
     # 1. single faults, every position (exhaustive over the fault catalogue for the chosen base streams)
     bases = []
     for (n, dl) in ([(3, 8), (10, 8), (20, 8), (30, 8), (13, 12), (6 + 7 * 3, 8)] + ([(6 + 7 * 10, 8), (62 + 63 * 2, 64), (130, 8)] if big else [])):
         p = bytes(rng.getrandbits(8) for _ in range(n))
-        bases.append([(cid, f) for f in L.segment(p, dl, b"\xAA" * rng.randint(0, 3))])
+        bases.append(([cid], dl, n, [(cid, f) for f in L.segment(p, dl, b"\xAA" * rng.randint(0, 3))]))
     # two transfers back to back
-    bases.append([(cid, f) for f in L.segment(bytes(range(12)), 8, b"") + L.segment(bytes(range(50, 59)), 8, b"\x00")])
+    bases.append(([cid], 8, 12, [(cid, f) for f in L.segment(bytes(range(12)), 8, b"") + L.segment(bytes(range(50, 59)), 8, b"\x00")]))
+    # a conversation on the two IDs `odxtools snoop` listens to: request, segmented response with the tester's flow control in between
+    rx, txi = 0x7E0, 0x7E8
+    resp = L.segment(bytes(rng.getrandbits(8) for _ in range(20)), 8, b"\x55")
+    bases.append(([rx, txi], 8, 20, [(rx, L.segment(b"\x22\xF1\x90", 8, b"\x55" * 4)[0]), (txi, resp[0]), (rx, b"\x30\x00\x00\x55\x55\x55\x55\x55")]
+                  + [(txi, f) for f in resp[1:]]))
     rec_p = bytes(range(100, 117))
     rec = (cid, rec_p, L.segment(rec_p, 8, b"\xAA"))
     # recovery transfers of other lengths: the sequence number of consecutive frames wraps after 15 frames, so "the next
@@ -114,36 +263,65 @@ def run(ctx):
         long_recs.append((cid, q, L.segment(q, dl, b"")))
     calls = [0]
 
-    def pick_rec(cid_):
-        """mostly the short transfer; every 6th call one of the long ones (keeps the run time)"""
+    def pick_rec(ids_):
+        """mostly the short transfer; every 6th call one of the long ones (keeps the run time); on each listened ID in turn"""
         calls[0] += 1
+        cid_ = ids_[calls[0] % len(ids_)]
         if calls[0] % 6 == 0:
             c0, q, fs = long_recs[(calls[0] // 6) % len(long_recs)]
             return (cid_, q, fs)
         return (cid_, rec_p, rec[2])
-    for base in bases:
-        singles = list(faults(base, cid))
+
+    def short(tag):
+        return tag.rstrip("0123456789abcdef") if tag.startswith("pci") else tag
+    for (ids, dl, n, base) in bases:
+        singles = list(faults(base, ids))
         for (tag, k), fr in singles:
-            oracle(ctx, [cid], fr, "single-fault", tag.rstrip("0123456789abcdef") if tag.startswith("pci") else tag, pending, pick_rec(cid))
+            go(ids, fr, "single-fault", short(tag), pick_rec(ids))
         ctx.count("single_fault_streams", len(singles))
-        # 2. double faults: exhaustive for short bases in thorough, sampled otherwise
+        # 2. announced length x fault: the first frame announces each boundary length (zero, less than / exactly what the first frame
+        #    carries, one less / one more / one frame more than the data, 255/256, 4095) and on top of that every single fault
+        for k, (c, f) in enumerate(base):
+            if len(f) >= 2 and f[0] >> 4 == 1:
+                vals = ffdl_values(n, dl)
+                if not big and len(base) > 3:
+                    vals = [v for v in vals if v in (0, 1, dl - 2, dl - 1, n - 1, n + 1, 4095)]
+                cnt = 0
+                for v in vals:
+                    b2 = set_ffdl(base, k, v)
+                    cnt += go(ids, b2, "ffdl", "ffdl", pick_rec(ids), dedup=True)
+                    for (tag, k2), fr in faults(b2, ids):
+                        if tag.startswith("pci") and not big and k2 != k and int(tag[3:], 16) > 3:
+                            continue    # quick: undefined frame types only at the first frame itself
+                        cnt += go(ids, fr, "ffdl-x-fault", "ffdl+" + short(tag), pick_rec(ids), dedup=True)
+                ctx.count("ffdl_x_fault_streams", cnt)
+        # 3. double faults: exhaustive for the shortest multi-frame bases (all of them up to 4 frames in thorough), sampled otherwise
         if len(base) <= (6 if big else 3):
-            doubles = [(t1, t2, fr2) for (t1, fr1) in singles for (t2, fr2) in faults(fr1, cid)]
-            if not big:
-                doubles = rng.sample(doubles, min(len(doubles), 1500))
+            exhaustive = len(base) <= (4 if big else 2) and dl == 8 and len(ids) == 1
+            doubles = ((t1, t2, fr2) for ((t1, _), fr1) in singles for ((t2, _), fr2) in faults(fr1, ids))
+            if not exhaustive:
+                doubles = list(doubles)
+                doubles = rng.sample(doubles, min(len(doubles), 20000 if big else 2500))
+            cnt = 0
             for (t1, t2, fr2) in doubles:
-                oracle(ctx, [cid], fr2, "double-fault", "double", pending, pick_rec(cid))
-            ctx.count("double_fault_streams", len(doubles))
-    # 3. random frame soups over 1-3 ids
-    for n in range(20000 if big else 1500):
+                cnt += go(ids, fr2, "double-fault", "double", pick_rec(ids), dedup=True)
+            ctx.count("double_fault_streams" + ("_exhaustive" if exhaustive else ""), cnt)
+    # 4. random frame soups over 1-3 ids; first frames biased to the boundary values of the announced length
+    for n in range(20000 if big else 2500):
         ids = rng.sample(range(0x700, 0x7F0), rng.randint(1, 3))
         frames = []
         for _ in range(rng.randint(1, 14)):
             c = rng.choice(ids + [0x123])
             r = rng.random()
             if r < 0.55:
-                b0 = (rng.choice([0, 1, 2, 2, 2, 3, rng.randint(4, 15)]) << 4) | rng.randint(0, 15)
+                ft = rng.choice([0, 1, 2, 2, 2, 3, rng.randint(4, 15)])
+                b0 = (ft << 4) | rng.randint(0, 15)
                 f = bytes([b0]) + bytes(rng.getrandbits(8) for _ in range(rng.choice([0, 1, 2, 6, 7, 7, 11, 63])))
+                if ft == 1 and len(f) >= 2 and rng.random() < 0.6:
+                    v = rng.choice([0, 0, 1, 5, 6, 7, 8, 13, 14, 255, 256, 4095])
+                    f = bytes([0x10 | (v >> 8), v & 0xFF]) + f[2:]
+                elif ft == 2 and rng.random() < 0.6:
+                    f = bytes([0x20 | rng.choice([0, 1, 1, 2, 2, 3, 15])]) + f[1:]
             elif r < 0.65:
                 f = bytes(rng.getrandbits(8) for _ in range(rng.randint(0, 3)))
             else:
@@ -152,13 +330,24 @@ def run(ctx):
                 frames += [(c, x) for x in fs[:rng.randint(1, len(fs))]]
                 continue
             frames.append((c, f))
-        oracle(ctx, ids, frames, "soup", "soup", pending, pick_rec(ids[0]))
+        go(ids, frames, "soup", "soup", pick_rec(ids))
     flush_model(ctx, pending)
+    flush_active(ctx, act)
 
 
 def replay(ctx, data):
     w = data["witness"]
     frames = [(c, bytes.fromhex(h)) for c, h in w["frames"]]
     sub = type(ctx)(ctx.pid, ctx.tier, ctx.seed)
-    oracle(sub, w["ids"], frames, "replay", "replay", [], None)
+    dec = w.get("decoder", "")
+    if dec.startswith("text:"):
+        text_log_oracle(sub, w["ids"], frames, "replay")
+        return not sub.violations
+    if dec.startswith("bus:"):
+        bus_oracle(sub, w["ids"], frames, "replay", dec[4:])
+        return not sub.violations
+    rec = None
+    if "then" in w and "expected" in w:
+        rec = (w.get("then_id", w["ids"][0]), bytes.fromhex(w["expected"]), [bytes.fromhex(h) for h in w["then"]])
+    oracle(sub, w["ids"], frames, "replay", "replay", [], rec, L.VARIANTS)
     return not sub.violations
